@@ -65,7 +65,7 @@ class SymEngine(Engine):
             if r == z3.unknown:
                 self.path_inconclusive.append(f"solver unknown on assertion {label!r}")
                 return False
-            m = self.solver.model()
+            m = self.model()
             self.path_violations.append({"label": label, "inputs": self.model_inputs(m)})
             # continue the path on the side where the assertion holds, if any
             if self.check(t) == z3.sat:
@@ -75,7 +75,7 @@ class SymEngine(Engine):
         if not cond:
             r = self.check()
             if r == z3.sat:
-                self.path_violations.append({"label": label, "inputs": self.model_inputs(self.solver.model())})
+                self.path_violations.append({"label": label, "inputs": self.model_inputs(self.model())})
             else:
                 self.path_inconclusive.append("unknown path condition at failing assertion")
             raise PathAbort()
@@ -234,7 +234,7 @@ def explore(fn, params=None, known=(), max_decisions=400, max_paths=200000, time
                     tb = traceback.format_exc(limit=-4)
                     if r == z3.sat:
                         eng.path_violations.append({"label": f"unexpected {type(e).__name__}: {e}",
-                                                    "inputs": eng.model_inputs(eng.solver.model()),
+                                                    "inputs": eng.model_inputs(eng.model()),
                                                     "traceback": tb})
                     else:
                         res["inconclusive"].append(f"exception on path with non-sat pc: {e}")
@@ -247,9 +247,9 @@ def explore(fn, params=None, known=(), max_decisions=400, max_paths=200000, time
                             f"width obligation not discharged ({r}): a value may exceed {core.W} bits")
                 if eng.reached and outcome in ("ok", "abort") and len(res["samples"]) < keep_samples and pin is None:
                     if eng.check() == z3.sat:
-                        res["samples"].append(eng.model_inputs(eng.solver.model()))
+                        res["samples"].append(eng.model_inputs(eng.model()))
                 if pin is not None and eng.check() == z3.sat:
-                    m = eng.solver.model()
+                    m = eng.model()
                     res["observed"] = [(l, _jsonable(eng.eval_value(m, v))) for l, v in eng.observed]
                     res["pinned_outcome"] = ("violation" if eng.path_violations else
                                              "assume" if outcome == "assume" else
